@@ -26,7 +26,7 @@ func init() {
 func runC01(p *Prog, r *Report) {
 	r.Min("C01.R1", 11+3)
 	r.Min("C01.R2", 2)
-	r.Min("C01.R3", 6+8)
+	r.Min("C01.R3", 3+8)
 	r.Min("C01.R4", 4)
 	r.Min("C01.R5", 6)
 	r.Min("C01.R6", 5)
@@ -812,7 +812,7 @@ func emptinessFact(s *Seg, field string) (known, empty bool) {
 		if bo.Op == token.EQL || bo.Op == token.NEQ {
 			for _, pair := range [][2]ssa.Value{{bo.X, bo.Y}, {bo.Y, bo.X}} {
 				if cs, isS := constString(pair[1]); isS && cs == "" {
-					if _, fl, isF := fieldLoad(s.Resolve(pair[0])); isF && fl == field {
+					if loadsFieldNamed(s, pair[0], field) {
 						return true, (bo.Op == token.EQL) == f.Truth
 					}
 				}
@@ -826,7 +826,7 @@ func emptinessFact(s *Seg, field string) (known, empty bool) {
 		if !ok || b.Name() != "len" {
 			continue
 		}
-		if _, fl, isF := fieldLoad(s.Resolve(c.Call.Args[0])); !isF || fl != field {
+		if !loadsFieldNamed(s, c.Call.Args[0], field) {
 			continue
 		}
 		v0, ok0 := EvalCond(s, bo, func(v ssa.Value) (int64, bool) {
@@ -852,10 +852,14 @@ func checkGeneratorModes(p *Prog, r *Report) {
 	n := 0
 	for _, fn := range p.SrcFuncs() {
 		if fn.Pkg != p.SPkg("command") || fn.Parent() != nil || fn.Signature.Results().Len() != 1 ||
-			types.TypeString(fn.Signature.Results().At(0).Type(), nil) != reqGenT || fn.Signature.Params().Len() != 0 {
+			types.TypeString(fn.Signature.Results().At(0).Type(), nil) != reqGenT {
 			continue
 		}
-		if !recvHasField(fn, "portRanges") {
+		shared := fn.Signature.Recv() == nil && fn.Signature.Params().Len() > 0 && !hasParamOfType(fn, reqGenT)
+		if !shared && fn.Signature.Params().Len() != 0 {
+			continue
+		}
+		if !shared && !recvHasField(fn, "portRanges") {
 			continue // port-less option family: checkPortlessModes
 		}
 		// builders that choose between modes: mention the ip-file option
@@ -912,6 +916,21 @@ func checkGeneratorModes(p *Prog, r *Report) {
 			continue // not a mode-choosing builder
 		}
 		n++
+		if shared {
+			// one builder serving several option families: count the families that call it
+			fams := map[string]bool{}
+			for _, cs := range p.CallSites(fn) {
+				if cs.Parent().Signature.Recv() == nil {
+					continue
+				}
+				if rn := recvNamed(cs.Parent()); rn != nil {
+					fams[rn.Obj().Name()] = true
+				}
+			}
+			if len(fams) > 1 {
+				n += len(fams) - 1
+			}
+		}
 		oracle := map[string]string{"no-file": "cross(subnet,ports)", "file,no-ports": "pairfile", "file,ports": "cross(addrfile,ports)"}
 		var keys []string
 		for k := range oracle {
@@ -1530,7 +1549,7 @@ func checkCrossProduct(p *Prog, r *Report) {
 		r.Undecided("C01.R6", name, pos, "the producer is two nested loops (ports x addresses)", fmt.Sprintf("%d loops", len(heads)))
 		return
 	}
-	fp := Paths(g)
+	fp := PathsInl(g) // a small helper that resolves the address and sends the request is expanded in place
 	ipT, portT := modPath+"/pkg/scan.IPGetter", modPath+"/pkg/scan.PortGetter"
 	var inner, outer *ssa.BasicBlock
 	for _, h := range heads {
@@ -1601,7 +1620,7 @@ func checkCrossProduct(p *Prog, r *Report) {
 			// the address comes from this iteration's receive, the port from the outer receive
 			if ip, has := lf["DstIP"]; has {
 				if ex, ok := s.Resolve(ip).(*ssa.Extract); ok {
-					if c, ok := ex.Tuple.(*ssa.Call); ok && rc.Val != nil && c.Call.Value != rc.Val {
+					if c, ok := ex.Tuple.(*ssa.Call); ok && rc.Val != nil && c.Call.Value != rc.Val && s.Resolve(c.Call.Value) != rc.Val {
 						okEmit, whyEmit = false, "DstIP is not the address received in this iteration"
 					}
 				}
@@ -1732,7 +1751,8 @@ func checkPortSources(p *Prog, r *Report) {
 		for _, s := range fp.Segs {
 			for _, e := range s.Events {
 				if e.Kind == EvStore {
-					if fa, ok := e.Addr.(*ssa.FieldAddr); ok && fieldName(fa.X.Type(), fa.Field) == "portRanges" {
+					// directly, or through a pointer parameter of an expanded helper bound to &o.portRanges
+					if fa, ok := s.Resolve(e.Addr).(*ssa.FieldAddr); ok && fieldName(fa.X.Type(), fa.Field) == "portRanges" {
 						stores = true
 					}
 				}
@@ -1792,6 +1812,14 @@ func checkPortSources(p *Prog, r *Report) {
 						}
 						return out
 					}
+					if t.Op == token.MUL {
+						if fa, isFA := s.Resolve(t.X).(*ssa.FieldAddr); isFA && fieldName(fa.X.Type(), fa.Field) == "portRanges" {
+							for k := range cur {
+								out[k] = true
+							}
+							return out
+						}
+					}
 				case *ssa.Slice:
 					return eval(t.X, d+1)
 				}
@@ -1802,7 +1830,7 @@ func checkPortSources(p *Prog, r *Report) {
 				if e.Kind != EvStore {
 					continue
 				}
-				if fa, isFA := e.Addr.(*ssa.FieldAddr); isFA && fieldName(fa.X.Type(), fa.Field) == "portRanges" {
+				if fa, isFA := s.Resolve(e.Addr).(*ssa.FieldAddr); isFA && fieldName(fa.X.Type(), fa.Field) == "portRanges" {
 					cur = eval(e.Val, 0)
 				}
 			}
@@ -1960,4 +1988,50 @@ func linForm(v ssa.Value) (linear, bool) {
 		}
 	}
 	return out, ok
+}
+
+// loadsFieldNamed: v is a load of an options field called field, or a parameter (possibly captured by a
+// closure) of a shared helper that every call site binds to such a load.
+func loadsFieldNamed(s *Seg, v ssa.Value, field string) bool {
+	v = s.Resolve(v)
+	if _, fl, isF := fieldLoad(v); isF && fl == field {
+		return true
+	}
+	for i := 0; i < 6; i++ {
+		if fv, isFV := v.(*ssa.FreeVar); isFV {
+			if b := BindingOf(fv); b != nil {
+				v = b
+				continue
+			}
+		}
+		if u, isU := v.(*ssa.UnOp); isU && u.Op == token.MUL {
+			cell := u.X
+			if fv, isFV := cell.(*ssa.FreeVar); isFV {
+				if b := BindingOf(fv); b != nil {
+					cell = b
+				}
+			}
+			if a, isA := cell.(*ssa.Alloc); isA && theProg != nil {
+				if st := theProg.StoresToAlloc(a); len(st) == 1 {
+					v = st[0]
+					continue
+				}
+			}
+		}
+		break
+	}
+	prm, isP := v.(*ssa.Parameter)
+	if !isP || theProg == nil {
+		return false
+	}
+	args := theProg.ArgsBoundTo(prm)
+	if len(args) == 0 {
+		return false
+	}
+	for _, a := range args {
+		if _, fl, isF := fieldLoad(a); !isF || fl != field {
+			return false
+		}
+	}
+	return true
 }
